@@ -136,7 +136,15 @@ def scenario(i, group, git, setvars, ident, root, issuances):
         settings["TACD_PORT"] = None
     chal = "http-01" if group.startswith("http") else "tls-alpn-01"
     hooks = [group] + (["git"] if git else [])
-    cert = simple_cert("dh%d" % i, ids=[{"dns": ident, "challenge": chal}], env=cenv)
+    # the variables are given at the identifier, the certificate or the global level in turn: the manual documents all three
+    level = ("certificate", "identifier", "global")[i % 3] if setvars else "none"
+    settings["level"] = level
+    if level == "identifier":
+        cert = simple_cert("dh%d" % i, ids=[{"dns": ident, "challenge": chal, "env": cenv}])
+    elif level == "global":
+        cert = simple_cert("dh%d" % i, ids=[{"dns": ident, "challenge": chal}])
+    else:
+        cert = simple_cert("dh%d" % i, ids=[{"dns": ident, "challenge": chal}], env=cenv)
 
     def after(sc):
         time.sleep(0.3)
@@ -147,9 +155,10 @@ def scenario(i, group, git, setvars, ident, root, issuances):
     for _ in range(issuances):
         steps += [("run", {"attempts": 1}), ("call", after)]
     env = {"PATH": os.path.join(TARGET, "repo", "debug") + ":" + os.environ.get("PATH", ""), "GIT_CONFIG_GLOBAL": "/dev/null"}
-    sp = dict(tag="C20/s%03d" % i, certs=[cert], hooks=[], cert_hooks=hooks, account_hooks=(["git"] if git else []), include=[DEFAULT_HOOKS],
+    gopts = {"env": cenv} if level == "global" else {}
+    sp = dict(tag="C20/s%03d" % i, certs=[cert], hooks=[], cert_hooks=hooks, global_opts=gopts, account_hooks=(["git"] if git else []), include=[DEFAULT_HOOKS],
               endpoints={"A": {"ca": {"validate": make_validator(settings), "offered": [chal], "authz_polls": 1}}}, steps=steps, env=env, timeout=90,
-              meta={"family": "default hooks", "group": group, "git": git, "vars_set": setvars, "identifier": ident, "issuances": issuances, "settings": {k: v for k, v in settings.items()}})
+              meta={"family": "default hooks", "group": group, "git": git, "vars_set": setvars, "identifier": ident, "issuances": issuances, "level": level, "settings": {k: v for k, v in settings.items()}})
     return sp, settings
 
 
